@@ -463,6 +463,34 @@ func r20k(c *core.Ctx) {
 				case *ssa.Call:
 					if b, isB := x.Call.Value.(*ssa.Builtin); isB && b.Name() == "append" {
 						base(x.Call.Args[0])
+						// append(dst, src...) with src a (sub)slice of a section another message holds: every element
+						// of src becomes shared
+						if len(x.Call.Args) == 2 && len(appendedElems(x)) == 0 {
+							v := x.Call.Args[1]
+							for {
+								if sl, ok := v.(*ssa.Slice); ok {
+									v = sl.X
+									continue
+								}
+								break
+							}
+							srcs := []ssa.Value{v}
+							// a variadic parameter: what the callers pass
+							srcs = append(srcs, core.Origins(v, core.OriginOpts{Prog: c.Prog, ThroughPar: true, Depth: 2})...)
+							for _, sv := range srcs {
+								for {
+									if sl, ok := sv.(*ssa.Slice); ok {
+										sv = sl.X
+										continue
+									}
+									break
+								}
+								if src, isSec := sectionLoad(sv); isSec {
+									nElems++
+									bad = append(bad, "appends the elements of "+src.String()+" (shared with the message that holds them)")
+								}
+							}
+						}
 						for _, e := range appendedElems(x) {
 							nElems++
 							for _, o := range core.Origins(e, core.OriginOpts{Prog: c.Prog, ThroughPar: true, Depth: 2}) {
